@@ -319,7 +319,7 @@ type c11Pool struct {
 	child *c11Child
 }
 
-const c11Recycle = 200
+const c11Recycle = 1000
 
 func (p *c11Pool) get() (*c11Child, error) {
 	if p.child != nil && !p.child.dead && p.child.served < c11Recycle {
